@@ -209,6 +209,24 @@ func (r *propRun) runJob(j Job) {
 		}
 	}
 	// 2. translator validation: cover witnesses replayed natively, observables compared
+	if len(res.Samples) > 0 && j.Replay == "gated" {
+		okN := 0
+		for i, s := range res.Samples {
+			if i >= 3 {
+				break
+			}
+			good, nr, out := r.confirmGated(j, s)
+			if good {
+				okN++
+				r.validated++
+			} else if nr != nil {
+				r.mismatches = append(r.mismatches, fmt.Sprintf("%s/s%d: gated replay of a cover witness: consumed %d/%d events, failed=%v panic=%q mismatch=%v diverged=%v", j.Name, i, nr.GatePos, nr.GateLen, nr.Failed, nr.Panic, nr.Mismatch, strings.Contains(out, "gate: DIVERGED")))
+			} else {
+				r.mismatches = append(r.mismatches, fmt.Sprintf("%s/s%d: gated replay of a cover witness produced no result:\n%s", j.Name, i, tail(out, 15)))
+			}
+		}
+		fmt.Printf("   cover witnesses validated natively under the engine's schedule (gated replay): %d\n", okN)
+	}
 	if len(res.Samples) > 0 && j.Replay != "none" && j.Replay != "gated" {
 		var cases []nativeCase
 		for i, s := range res.Samples {
